@@ -149,4 +149,37 @@ def r8_6(ctx):
             v.rule = "R8.6"
 
 
-RULES = [r8_3, r8_4, r8_5, r8_6]
+def r8_7(ctx):
+    ctx.rule("R8.7", "the panel's title text is a fresh object on every render/measure: Panel._title pads and restyles the Text it returns (and __rich_console__ aligns it), so every value it returns must be newly built (Text.from_markup / Text(...) / .copy()), never the caller's own Text - otherwise the padding accumulates and the panel grows wider on every render")
+    f = ctx.repo.cls("panel:Panel").method("_title")
+    if f is None:
+        raise AnchorVanished("Panel._title not found")
+    m = f.module
+
+    def fresh(e) -> bool:
+        if isinstance(e, ast.IfExp):
+            return fresh(e.body) and fresh(e.orelse)
+        if isinstance(e, ast.Call):
+            fn = norm(e.func)
+            return fn.endswith(".copy") or fn in ("Text", "Text.from_markup", "Text.assemble", "Text.styled") or fn.endswith("render_str")
+        return False
+
+    n = 0
+    for r in walk_local(f.node):
+        if isinstance(r, ast.Return) and r.value is not None and not (isinstance(r.value, ast.Constant) and r.value.value is None):
+            n += 1
+            v = r.value
+            exprs = [v]
+            if isinstance(v, ast.Name):
+                exprs = [x.value for x in walk_local(f.node) if isinstance(x, ast.Assign) and len(x.targets) == 1 and norm(x.targets[0]) == v.id]
+            ok = bool(exprs) and all(fresh(e) for e in exprs)
+            ctx.check(ok, f.fq, "; ".join(short(e) for e in exprs), f"{m.relpath}:{r.lineno}", "title text is newly built for each call",
+                      f"Panel._title returns `{'; '.join(short(e) for e in exprs)}`, which can be the caller's own Text: it is padded / aligned in place on every measure and render, so the title (and a width-constrained panel) grows each time")
+    ctx.floor(n, 1, "returns of Panel._title")
+    # the mutations that make freshness necessary are really there (keeps the rule honest)
+    src = norm(f.node)
+    if ".pad(1)" not in src and ".align(" not in norm(ctx.repo.fn("panel:Panel.__rich_console__").node):
+        ctx.note("Panel no longer mutates its title text; R8.7 is then vacuous")
+
+
+RULES = [r8_3, r8_4, r8_5, r8_6, r8_7]
